@@ -1,2 +1,3 @@
 import BufrSpec.Expand
 import BufrSpec.Ops
+import BufrSpec.Ieee
